@@ -810,26 +810,41 @@ class C20(Prop):
             n = rng.choice([2, 2, 3, 3, 4])
         if large:
             n = force.get("n", rng.choice([1, 1, 1, 2]))
-        p_sub = {"quick": 0.08, "thorough": 0.5}[tier]
+        p_sub = {"quick": 0.05, "thorough": 0.5}[tier]
         mode = force.get("mode", "subproc" if rng.random() < p_sub else "inproc")
         heavy = 0.12 if tier == "quick" else 0.3  # csvdir spawns a process pool per load
         weights = {"npz": 4, "txt": 3, "agilent": 2, "thermo": 2, "csvdir": 8 * heavy}
         pool = [f for f in names for _ in range(max(1, int(10 * weights[f])))]
-        stems = rng.sample(["a", "b", "img", "scan1", "x.v2", "line_3", "Sample", "t0", "q"], n)
+        stems = rng.sample(["a", "b", "img", "scan1", "x.v2", "line_3", "Sample", "t0", "q", "a.b.1", "x y", "UP.per", "\u00fc1"], n)
         subs = [rng.choice(["", "", "in1", "in2"]) for _ in range(n)]
+        # two inputs with one stem: in different directories (their outputs coincide inside an output directory, not beside the
+        # inputs), or in one directory under different suffixes (their outputs coincide whenever they are derived)
+        same_stem = force["same_stem"] if "same_stem" in force else (n >= 2 and cmd != "stack" and rng.random() < 0.06)
+        if same_stem and n >= 2:
+            i, j = rng.sample(range(n), 2)
+            stems[j] = stems[i]
+            if rng.random() < 0.7:
+                subs[i], subs[j] = rng.sample(["", "in1", "in2"], 2)
+            else:
+                subs[j] = subs[i]
         equal = rng.random() < 0.3 and not large  # (the ordinary companions of a large image stay small)
         shape = None
         inputs = []
         if cmd == "stack":
             # one element list for all inputs: text images (always `_element_`) or npz files with the same names
-            kind = force.get("stack_fmt", rng.choice(["npz", "npz", "txt", "mixed"]))
+            kind = force.get("stack_fmt", rng.choice(["npz", "npz", "npz", "txt", "txt", "mixed", "mixed", "any_text"]))
             els = rng.sample(NPZ_ELEMENTS, rng.choice([1, 2, 2, 3]))
+            if kind == "any_text":  # text images and npz files with the one element `_element_`, in any order
+                els = ["_element_"]
             first = None
             eq_shapes = equal_count_shapes(rng, n, 2 if kind == "mixed" else 1) if eqcount else None
             for k in range(n):
                 sh = eq_shapes[k] if eqcount else shape if (equal and shape) else None
                 if kind == "txt":
                     fmt, e = "txt", None
+                elif kind == "any_text":
+                    fmt = rng.choice(["txt", "npz"])
+                    e = None if fmt == "txt" else els
                 elif kind == "npz":
                     fmt, e = "npz", els
                 elif k == 0:  # mixed: an instrument format first (its config is the one kept), npz files with its names after it
@@ -970,6 +985,8 @@ class C20(Prop):
             output = {"kind": "file", "sub": "", "name": rng.choice(["newdir", "nodir.d"])}
         case = {"cmd": cmd, "mode": mode, "inputs": inputs, "format": fmt_out, "output": output,
                 "missing_input": force.get("missing_input", rng.random() < 0.03), "relative": rng.random() < 0.25}
+        if rng.random() < 0.3:  # how the command line is written
+            case["argv"] = {"shuffle": rng.randrange(1 << 16), "options_first": rng.random() < 0.4, "equals": rng.random() < 0.4}
         if cmd == "stack":  # `--calibrate`: accepted by the parser, `raise NotImplementedError` in `stack`
             case["calibrate"] = force.get("calibrate", rng.random() < 0.05)
         # ---- command options
@@ -986,6 +1003,10 @@ class C20(Prop):
             case["elements"] = self.pick_elements(rng, all_els)
             case["filter"] = {"type": rng.choice(["mean", "median", None]), "size": rng.choice([3, 3, 5, 7, None]),
                               "threshold": rng.choice([0.0, 0.5, 1.0, 1.5, 3.0, None])}
+            if rng.random() < 0.15:  # the ends of the parameter ranges: window 1 (nothing to compare with), windows larger than
+                # the image, an even window (the library rejects it: counted only), negative / tiny / huge thresholds
+                case["filter"] = {"type": rng.choice(["mean", "median", None]), "size": rng.choice([1, 9, 11, 9, 11, 15, 2]),
+                                  "threshold": rng.choice([-1.0, 0.001, 10.0, 1e9, 0.25, 3.0])}
             if dup:  # a second pass over the filtered image must change something: low thresholds, small windows
                 case["filter"] = {"type": rng.choice(["mean", "median", None]), "size": rng.choice([3, 3, 5]),
                                   "threshold": rng.choice([0.5, 0.75, 1.0, 1.0, 1.5])}
@@ -996,6 +1017,8 @@ class C20(Prop):
         else:
             case["orientation"] = rng.choice(["vertical", "horizontal", None])
             case["pad"] = rng.choice(["default", "nan", -1.0, 0.0, 2.5, 1e6])
+            if rng.random() < 0.12:  # signed zero, the smallest and the largest magnitudes, a value that is no dyadic fraction
+                case["pad"] = rng.choice([-0.0, 5e-324, 1.7976931348623157e308, -1e300, 0.1, -123.456, 1e-7])
             if has_int and rng.random() < 0.85:  # a pad value every integer type holds (others: recorded only)
                 case["pad"] = rng.choice([-1.0, 0.0, 1e6, 0.0, 7.0]) if not any(np.dtype(d).kind == "u" for d in typed) else rng.choice([0.0, 7.0, 1e6])
         if "elements" in force and cmd != "stack":
@@ -1183,34 +1206,54 @@ class C20(Prop):
     def argv_of(self, case, root: Path, rels, out_rel):
         def arg(rel):
             return str(rel) if case["relative"] else str(root / rel)
-        argv = [case["cmd"]] + [arg(r) for r in rels]
+        single, multi = [], []  # options with one value (or none) / with several values
         if case["format"] != ".npz" or len(rels) % 2 == 0:  # the default is exercised as well
-            argv += ["--format", case["format"]]
+            single.append(["--format", case["format"]])
         if out_rel is not None:
-            argv += ["--output", arg(out_rel)]
+            single.append(["--output", arg(out_rel)])
         if case["cmd"] == "convert":
             if case["config"] is not None:
-                argv += ["--config"] + [repr(x) for x in case["config"]]
+                multi.append(["--config"] + [repr(x) for x in case["config"]])
             if case["elements"] is not None:
-                argv += ["--elements"] + case["elements"]
+                multi.append(["--elements"] + case["elements"])
         elif case["cmd"] == "filter":
             f = case["filter"]
             if f["type"] is not None:
-                argv += ["--type", f["type"]]
+                single.append(["--type", f["type"]])
             if f["size"] is not None:
-                argv += ["--size", str(f["size"])]
+                single.append(["--size", str(f["size"])])
             if f["threshold"] is not None:
-                argv += ["--threshold", repr(f["threshold"])]
+                single.append(["--threshold", repr(f["threshold"])])
             if case["elements"] is not None:
-                argv += ["--elements"] + case["elements"]
+                multi.append(["--elements"] + case["elements"])
         else:
             if case["orientation"] is not None:
-                argv += ["--orientation", case["orientation"]]
+                single.append(["--orientation", case["orientation"]])
             if case["pad"] != "default":
-                argv += ["--pad", "nan" if case["pad"] == "nan" else repr(case["pad"])]
+                single.append(["--pad", "nan" if case["pad"] == "nan" else repr(case["pad"])])
             if case.get("calibrate"):
-                argv += ["--calibrate"]
-        return argv
+                single.append(["--calibrate"])
+        # the order and the spelling of the options: as written above (the default), or shuffled, options before the inputs,
+        # `--option=value` (a list of values ends at the next option or at the end, so those stay behind the inputs)
+        style = case.get("argv") or {}
+        if "shuffle" in style:
+            r = random.Random(f"C20-argv-{style['shuffle']}")
+            r.shuffle(single)
+            r.shuffle(multi)
+        import re as _re
+
+        def needs_equals(v):  # argparse takes `-1e+300` for an option name (its pattern of negative numbers knows no exponent)
+            return v.startswith("-") and not _re.match(r"^-\d+$|^-\d*\.\d+$", v)
+        single = [[g[0] + "=" + g[1]] if len(g) == 2 and (style.get("equals") or needs_equals(g[1])) else g for g in single]
+        flat = lambda groups: [x for g in groups for x in g]  # noqa: E731
+        inputs = [arg(r) for r in rels]
+        if style.get("options_first"):
+            return [case["cmd"]] + flat(single) + inputs + flat(multi)
+        if "shuffle" in style:  # options of both kinds mixed behind the inputs
+            groups = single + multi
+            random.Random(f"C20-argv2-{style['shuffle']}").shuffle(groups)
+            return [case["cmd"]] + inputs + flat(groups)
+        return [case["cmd"]] + inputs + flat(single) + flat(multi)
 
     def run_cli(self, case, root: Path, argv):
         """-> ('ok' | 'error', exit kind 'ok' | 'usage' | 'crash', LoaderSpy or None)"""
@@ -1609,12 +1652,31 @@ class C20(Prop):
                 feats.add("spot-config:with-vtk-spacing")
         if any(f.get("kind") == "npz" and f["config"][0] == "spot" for f in spec_["files"]):
             feats.add("out:spot-config")
+        if rep["spec"]["status"] == "ok" and rep["spec"]["written"] > len(rep["spec"]["files"]):
+            feats.add("outputs-coincide")  # a later file replaces an earlier one (the driver's `finalFiles`)
+            if len(set(run_rels)) == len(run_rels):
+                feats.add("outputs-coincide:of-different-inputs")
+        if len({(Path(r).parent, Path(r).stem) for r in set(run_rels)}) < len(set(run_rels)):
+            feats.add("in:one-stem-two-suffixes-in-one-directory")
+        if len({Path(r).stem for r in set(run_rels)}) < len(set(run_rels)):
+            feats.add("in:equal-stems")
+        if case.get("argv"):
+            feats.add("argv:shuffled")
+            if case["argv"].get("options_first"):
+                feats.add("argv:options-before-inputs")
+            if case["argv"].get("equals"):
+                feats.add("argv:option=value")
         if "same-input-twice" in feats:
             feats.add("same-input-twice:" + cmd)
             if cmd == "filter" and second_pass_changes and spec_["status"] == "ok" and spec_["files"]:
                 feats.add("same-input-twice:filter-second-pass-would-change")
         if cmd == "filter":
             feats.add("filter:" + (case["filter"]["type"] or "default"))
+            fsz, fth = case["filter"]["size"], case["filter"]["threshold"]
+            if fsz is not None and fsz not in (3, 5, 7):
+                feats.add("filter:window-1" if fsz == 1 else "filter:window-even (library rejects)" if fsz % 2 == 0 else "filter:window>=9")
+            if fth is not None and (fth < 0 or fth > 3.0 or 0 < fth < 0.01):
+                feats.add("filter:threshold-extreme")
             if changed_by_filter:
                 feats.add("filter:changed-values")
             for axis, key in (("rows", "h"), ("cols", "w")):
@@ -1628,6 +1690,9 @@ class C20(Prop):
         if cmd == "stack":
             feats.add("orient:" + (case["orientation"] or "default"))
             feats.add("pad:" + ("nan" if case["pad"] in ("default", "nan") else "finite"))
+            if case["pad"] not in ("default", "nan", -1.0, 2.5, 1e6) or (case["pad"] == 0.0 and math.copysign(1.0, case["pad"]) < 0):
+                if case["pad"] != 0.0 or math.copysign(1.0, case["pad"]) < 0:
+                    feats.add("pad:extreme-or-signed-zero")
             if spec_["status"] == "ok" and len(shapes) > 1:
                 feats.add("stack:padding-needed")
             if len(shapes) > 1 and len({s["h"] * s["w"] for s in inputs}) == 1:
